@@ -133,17 +133,23 @@ func Seed() int64 {
 func (r *Recorder) Seed() int64 { return r.seed }
 
 func (r *Recorder) loadKnown() {
-	b, err := os.ReadFile(filepath.Join(Root(), "known_findings.json"))
-	if err != nil {
-		return
-	}
-	var fs []finding
-	if err := json.Unmarshal(b, &fs); err != nil {
-		r.t.Fatalf("known_findings.json: %v", err)
-	}
-	for _, f := range fs {
-		if f.Property == r.ID && f.Status == "known" {
-			r.known[f.Key] = f
+	files := []string{filepath.Join(Root(), "known_findings.json")}
+	more, _ := filepath.Glob(filepath.Join(Root(), "known_findings.d", "*.json"))
+	sort.Strings(more)
+	files = append(files, more...)
+	for _, fn := range files {
+		b, err := os.ReadFile(fn)
+		if err != nil {
+			continue
+		}
+		var fs []finding
+		if err := json.Unmarshal(b, &fs); err != nil {
+			r.t.Fatalf("%s: %v", fn, err)
+		}
+		for _, f := range fs {
+			if f.Property == r.ID && f.Status == "known" {
+				r.known[f.Key] = f
+			}
 		}
 	}
 }
